@@ -70,7 +70,7 @@ class UnitValueValidator:
 
             validation_issues += self._check_value_class(original_tag, stripped_value, report_as, error_code,
                                                          index_offset)
-            if not unit:
+            if not unit or bad_units:  # bad_units: more text than a number before a valid unit ('3 cm m')
                 validation_issues += self._check_units(original_tag, bad_units, report_as)
 
             # We don't want to give this overall error twice
